@@ -11,6 +11,8 @@ fn main() {
     // Silence panic messages of caught panics; the harness reports them itself.
     if args[1] != "genmacro" {
         install_panic_hook();
+        // loops outside the engine (no step is taken, so the step budget never fires) end the run
+        start_watchdog(180);
     }
     match args[1].as_str() {
         "run" => {
